@@ -38,6 +38,7 @@ static void * waiter(void * a) {
 static void run(int tier, int prog) {
   build(); cur = &P[tier][prog];
   mv_start(cur->W);
+  h_maybe_custom_steal(prog, cur->W);
   h_join_counter_init(&jc, prog & 1, cur->N);
   myth_thread_t th[8]; int nt = 0, nw = 0;
   for (const char * s = cur->order; *s; s++) { if (*s == 'd') th[nt++] = myth_create(decr, 0); else { th[nt++] = myth_create(waiter, 0); nw++; } }
